@@ -404,6 +404,9 @@ func scenC10(r *Run) {
 		return
 	}
 	client.Timeout = 30 * time.Second
+	// No stalls from here on: stalls adding up to more than the fresh call's timeout would legitimately time it out
+	// (seen once in a million runs: 38 s of stalls inside one call), and that is not what "stays usable" is about.
+	sim.NoStalls()
 	fresh := &c10call{id: nextID, nonce: 9001, timeout: 30 * time.Second}
 	calls = append(calls, fresh)
 	sim.Task("yfresh", func() { doCall(fresh, context.Background()) })
